@@ -19,7 +19,7 @@ for SRC in SRCS:
           out = os.path.join(DST, name)
           os.makedirs(out, exist_ok=True)
           for f in ('patch.diff', 'demo.py', 'notes.md'):
-              if os.path.exists(os.path.join(vd, f)):
+              if os.path.exists(os.path.join(vd, f)) and not os.path.exists(os.path.join(out, f)):
                   shutil.copy(os.path.join(vd, f), os.path.join(out, f))
           mf = os.path.join(out, 'meta.json')
           if not os.path.exists(mf):
